@@ -13,7 +13,8 @@ EXTRA = {"C03-A":["C10"], "C10-B":["C03"], "C15-A":["C02","C16","C01"], "C15-B":
          "C03-C":["C18"], "C15-D":["C18"], "C14-D":["C13"], "C13-C":["C14"], "C13-D":["C09","C11"], "C16-C":["C01","C04"], "C02-C":["C04","C01"], "C02-D":["C01","C04"],
          "C01-C":["C02","C16"], "C01-D":["C03"], "C10-D":["C12"], "C12-C":["C10"], "C20-C":["C16","C14"], "C04-C":["C17","C01"], "C04-D":["C02","C01"],
          "C04-E":["C01","C02"], "C04-F":["C07"], "C06-E":["C16"], "C12-F":["C10"], "C15-E":["C20","C02"], "C16-E":["C02","C01"], "C17-F":["C01","C04"], "C18-F":["C15"], "C19-F":["C04"], "C20-F":["C10"], "C03-E":["C16","C01"], "C13-E":["C08","C05"], "C05-F":["C08"], "C09-E":["C11"], "C14-F":["C10"], "C02-E":["C01","C15"], "C02-F":["C01"],
-         "C03-G":["C18"], "C13-H":["C18"], "C18-G":["C03"], "C01-H":["C07","C04"], "C01-G":["C03","C10"], "C06-H":["C05"], "C08-G":["C05","C06"], "C10-G":["C12"], "C16-G":["C01","C04","C02"], "C02-G":["C04","C01"], "C02-H":["C04","C01","C17"], "C09-H":["C11"], "C11-G":["C09"], "C15-G":["C18"], "C15-H":["C10"], "C19-G":["C09"], "C14-G":["C13"], "C05-G":["C06"], "C07-G":["C05"], "C04-H":["C02","C01"], "C06-H":["C08"], "C08-G":["C06"]}
+         "C03-G":["C18"], "C13-H":["C18"], "C18-G":["C03"], "C01-H":["C07","C04"], "C01-G":["C03","C10"], "C06-H":["C05"], "C08-G":["C05","C06"], "C10-G":["C12"], "C16-G":["C01","C04","C02"], "C02-G":["C04","C01"], "C02-H":["C04","C01","C17"], "C09-H":["C11"], "C11-G":["C09"], "C15-G":["C18"], "C15-H":["C10"], "C19-G":["C09"], "C14-G":["C13"], "C05-G":["C06"], "C07-G":["C05"], "C04-H":["C02","C01"], "C06-H":["C08"], "C08-G":["C06"],
+         "C13-J":["C18"], "C04-J":["C08","C07"], "C04-I":["C01"], "C01-I":["C04"], "C13-I":["C09","C11"], "C14-I":["C13"], "C07-J":["C05","C06"], "C07-I":["C05"], "C16-J":["C02","C15"], "C15-I":["C02"], "C09-J":["C11","C13"], "C08-I":["C05"], "C03-I":["C10"], "C10-I":["C12"], "C12-I":["C10","C11"], "C12-J":["C10","C11"], "C05-I":["C06","C07"], "C05-J":["C06","C08"], "C02-I":["C01","C04"], "C02-J":["C01","C04"]}
 only = sys.argv[1:]
 res = {}
 for d in sorted(glob.glob("/verif/seeded/C*-[A-K]")):
